@@ -149,7 +149,7 @@ CLAIMS['C15'] = ('proof',
     'every Table mutator (insert, update_row, update_row_selective, delete_where, remove_row, clear, rebuild_indexes) re-establishes "the hash indexes mirror the row vector, the rows are duplicate-free" over exactly those contracts '
     '(unit K-table): writes store the STORED form of the row at the stated position, removals rebuild because positions shift. '
     '(b) User-defined (CREATE INDEX) indexes: the per-index insert and update steps keep the mirror "under each key exactly the positions of the rows with that key, each once, no empty list" (unit I-maint); '
-    'the loops over the index registry hand EVERY index of the table its own key and position and leave the others alone, a rebuild leaves every in-memory index of the table as the mirror of the rows (I-loop, I-maint rebuild_step); '
+    'the loops over the index registry hand EVERY index of the table its own key and position and leave the others alone, a rebuild leaves every in-memory index of the table as the mirror of the rows, CREATE INDEX builds the mirror of the rows it is handed (I-loop, I-maint rebuild_step / create_build); '
     'INSERT (single row and batch: a failed batch changes nothing) maintains them with the stored row at the position it received, after the unique check (I-insert); UPDATE and INSERT .. ON DUPLICATE KEY UPDATE with the old row and the row now stored at that position (I-update, U-apply, O-apply); '
     'DELETE, DELETE without WHERE, TRUNCATE, ROLLBACK, ROLLBACK TO SAVEPOINT and a binary reload rebuild them from the rows directly after the rows changed (D-apply, T-clear, K-undo, P-data), and a rebuild / CREATE INDEX builds from the rows of the table the name resolves to (I-resolve). '
     'NOT under contract: ALTER TABLE (Table::rows_mut / schema_mut; observed to leave catalog and table inconsistent), the disk-backed index arm, the JSON / SQL-dump loaders, the registry loop around the per-index steps, '
